@@ -29,7 +29,11 @@ func streamRace(o *Out, r *Rng, tier string) {
 	if _, err := os.Stat(filepath.Join(hdir, "race")); err != nil {
 		hdir = "/verif/harness"
 	}
-	build := exec.Command("go", "build", "-race", "-tags", "verif", "-o", bin, "./race")
+	args := []string{"build", "-race", "-tags", "verif", "-o", bin}
+	if mf := os.Getenv("VERIF_HARNESS_MODFILE"); mf != "" {
+		args = append(args, "-modfile="+mf) // the checks run against another working tree (VERIF_REPO)
+	}
+	build := exec.Command("go", append(args, "./race")...)
 	build.Dir = hdir
 	build.Env = append(os.Environ(), "GOFLAGS=-mod=mod", "GOPROXY=off", "GOSUMDB=off", "GOTOOLCHAIN=local", "CGO_ENABLED=1")
 	if out, err := build.CombinedOutput(); err != nil {
